@@ -191,6 +191,17 @@ CHECKS["C08"] = dict(
     technique="Lean 4 proof (equational laws of the skeleton, induction for fuel independence, decide +kernel over regenerated classification); differential skeleton correspondence; element-wise oracle",
     ref="§5 C08")
 
+CHECKS["C14"] = dict(
+    text="Lean: lazy transformations as pulling machines over an infinite source with a cursor; take is total (structural recursion: "
+         "the first n items always exist) and for each modelled machine the pulls for n outputs are bounded for EVERY n and EVERY source: map / "
+         "cumsum / enumerate / prefixes <= n, deltas <= n+1, windows <= n+k, chunks <= k n, prepend <= n, slice-from <= n+k, every-other <= 2n, "
+         "filter <= c n (and filter_finds under the density hypothesis); bound_compose keeps pipelines of any depth linear. Tie: outputs AND "
+         "pull counts of the real elements on an instrumented infinite source vs the machines; oracle: the first n items of 27 catalogued "
+         "transformations and their compositions arrive within the composed linear bound.",
+    note=COMMON_NOTE + "Partial: CPython's generator protocol and itertools are not modelled (T4); bounds for entries without a machine are stated generous linear bounds checked by the oracle only.",
+    technique="Lean 4 proof (state machines, induction on the number of outputs, a generic step-bound lemma); differential outputs + pull counts; pull-bound oracle",
+    ref="§5 C14")
+
 NOT_YET = {}
 
 def main():
